@@ -273,6 +273,23 @@ Fixpoint run_ops (ops : list (opkind * list obj)) (s : store) : store * list (li
       (s'', (rev lg, code) :: out)
   end.
 
+(* ---- which objects an operation addresses, and which object a backend call is about ---- *)
+Definition call_key (x : call) : N :=
+  match x with
+  | CCheckRoot k | CSetRoot k _ | CUnsetRoot k | CGetRoot k | CShow k | CDestroy k => k
+  | CGet k _ | CSet k _ | CUnset k _ => k
+  end.
+
+Definition addressed (op : opkind) (o : obj) : bool :=
+  match ostate o with
+  | None => false
+  | Some st =>
+      match op with
+      | OPush | OPop => negb (snd st) && negb (oskip_inner o)
+      | _ => negb (skipped o)
+      end
+  end.
+
 (* ---- the documented table (README, "setup policy") ---- *)
 Inductive doc_action := DReuse | DIgnore | DForce | DAbort | DInvalid.
 
